@@ -25,6 +25,7 @@ type loadCase struct {
 	InFlight int    `json:"inflight"`
 	Rounds   int    `json:"rounds"`
 	Procs    int    `json:"procs,omitempty"`
+	Limit    int    `json:"limit,omitempty"` // depth stream: the limit the frames in flight are to exceed together
 }
 
 type loadDiff struct {
@@ -42,6 +43,10 @@ type loadResult struct {
 	Panics   []string   `json:"panics"`
 	Routes   []string   `json:"routes"`
 	Err      string     `json:"err,omitempty"`
+	// depth stream: requests served one at a time AFTER the load that answer differently from the
+	// same request served before it; what a process-wide call counter reads when nothing is in flight
+	After []loadDiff `json:"after,omitempty"`
+	Rest  int        `json:"rest"`
 }
 
 func init() { vh.RegisterChild("c11load", loadChild) }
@@ -158,7 +163,7 @@ type loadReq struct {
 	own  string // vals stream: the body the request's own data prescribe ("" = no such oracle)
 }
 
-func loadRequests(r *vh.Rand, stream string, n int) []loadReq {
+func loadRequests(r *vh.Rand, stream string, n int, limit int) []loadReq {
 	var out []loadReq
 	// vals stream: a few kinds per load case, so that several in-flight requests share each route
 	var valSet []valKind
@@ -173,10 +178,30 @@ func loadRequests(r *vh.Rand, stream string, n int) []loadReq {
 			valSet = append(valSet, vh.Pick(r, ks))
 		}
 	}
+	var depthSet []depthKind
+	if stream == "depth" {
+		for m := r.Range(1, 3); len(depthSet) < m; {
+			depthSet = append(depthSet, vh.Pick(r, depthKinds()))
+		}
+	}
 	for i := 0; i < n; i++ {
 		x := fmt.Sprintf("%d", 1000+i*7+r.Intn(5))
 		tag := fmt.Sprintf("t%d", i)
 		var w wire
+		if stream == "depth" {
+			// together beyond the limit (1.3 × … 2 ×), each alone well within it
+			per := (limit*13/10+r.Intn(limit*7/10+1))/n + 1
+			if per > limit*3/5 {
+				per = limit * 3 / 5
+			}
+			if per < 6 {
+				per = 6
+			}
+			fr := mkReq(vh.Pick(r, depthSet), per-r.Intn(per/4+1), x)
+			fr.Hot = r.Chance(25)
+			out = append(out, loadReq{w: flightWire(fr, -1), own: flightWant(fr).Body})
+			continue
+		}
 		if stream == "vals" {
 			k := vh.Pick(r, valSet)
 			q := loadReq{w: valWire(valReq{k.Name, x}, -1)}
@@ -210,6 +235,9 @@ func loadScript(stream string) string {
 	if stream == "vals" {
 		return valScript(nil)
 	}
+	if stream == "depth" {
+		return depthScript()
+	}
 	return "<?php\nuse Net\\Http\\Server;\n$server = new Server('127.0.0.1', 0);\n" + h + "\nverif_expose($server);\n"
 }
 
@@ -231,19 +259,37 @@ func loadChild(args []string) int {
 		return emit()
 	}
 	r := vh.NewRand(lc.Seed)
-	reqs := loadRequests(r, lc.Stream, lc.InFlight)
-	if lc.Stream == "vals" {
+	if lc.Limit <= 0 {
+		lc.Limit = 500
+	}
+	reqs := loadRequests(r, lc.Stream, lc.InFlight, lc.Limit)
+	if lc.Stream == "vals" || lc.Stream == "depth" {
+		// depth: every request descends, all meet at the bottom (the frames of all of them are held
+		// at the same time), then they come back up racing each other
 		srv.gate.bar = newBarrier()
+	}
+	// depth stream: requests at the limit (L counted frames: served; L+1: refused by a limit on the
+	// request's own depth), served alone before the load and again after it
+	var boundary []loadReq
+	if lc.Stream == "depth" {
+		for _, kn := range flightReps {
+			for _, fr := range []int{lc.Limit, lc.Limit + 1} {
+				boundary = append(boundary, loadReq{w: flightWire(mkReq(depthByName[kn], fr, "77"), -1)})
+			}
+		}
+		for i := range boundary {
+			boundary[i].want = srv.serve(boundary[i].w)
+		}
 	}
 	// solo responses first: one request at a time
 	for i := range reqs {
 		reqs[i].want = srv.serve(reqs[i].w)
 		res.Routes = append(res.Routes, reqs[i].w.URL)
-		if reqs[i].want.Panic != "" {
+		if reqs[i].want.Panic != "" && (lc.Stream != "depth" || reqs[i].own != "") {
 			res.Panics = append(res.Panics, "solo "+reqs[i].w.URL+": "+reqs[i].want.Panic)
 			continue
 		}
-		if lc.Stream == "vals" {
+		if lc.Stream == "vals" || lc.Stream == "depth" {
 			if reqs[i].own != "" && (reqs[i].want.Body != reqs[i].own || reqs[i].want.Code != 200) {
 				res.NDiff++
 				res.NOwn++
@@ -279,7 +325,9 @@ func loadChild(args []string) int {
 				mu.Lock()
 				defer mu.Unlock()
 				res.Requests++
-				if got.Panic != "" {
+				// (depth stream: through HotHandler a refusal reaches the client as a panic; it is
+				// compared with the solo answer like any other response)
+				if got.Panic != "" && lc.Stream != "depth" {
 					if len(res.Panics) < 5 {
 						res.Panics = append(res.Panics, q.w.URL+": "+got.Panic)
 					}
@@ -304,6 +352,18 @@ func loadChild(args []string) int {
 		}
 		close(start)
 		wg.Wait()
+	}
+	for _, b := range boundary {
+		if got := srv.serve(b.w); got != b.want {
+			res.After = append(res.After, loadDiff{b.w.URL, got.String(), b.want.String(), "own"})
+		}
+	}
+	if v, ok := any(srv.env.VM).(interface {
+		EnterCall() int
+		LeaveCall()
+	}); ok && lc.Stream == "depth" {
+		res.Rest = v.EnterCall() - 1
+		v.LeaveCall()
 	}
 	return emit()
 }
@@ -376,6 +436,22 @@ func runLoad(c *vh.Ctx, lc loadCase) {
 		c.Violation("load:handler-panic", "a handler panicked under parallel load: "+p, lc)
 	}
 	sgSeen := false
+	if lc.Stream == "depth" {
+		classOf := func(url string) string {
+			k := strings.SplitN(strings.TrimPrefix(strings.TrimPrefix(url, "/d/"), "/h/"), "?", 2)[0]
+			return depthByName[k].Class
+		}
+		for _, d := range res.Diffs {
+			c.Violation("inflight:load:"+classOf(d.URL), fmt.Sprintf("under parallel load (%d requests in flight, all holding their frames at the same time, × %d rounds) %s answered %q but %q when served alone", lc.InFlight, lc.Rounds, d.URL, d.Got, d.Want), lc)
+		}
+		for _, d := range res.After {
+			c.Violation("inflight:after-load:"+classOf(d.URL), fmt.Sprintf("served alone AFTER a parallel load (%d in flight × %d rounds) %s answered %q; served alone before it %q — the answer depends on requests that have finished", lc.InFlight, lc.Rounds, d.URL, d.Got, d.Want), lc)
+		}
+		if res.Rest != 0 {
+			c.Mismatch(lc, fmt.Sprintf("the VM's call counter reads %d with no request in flight", res.Rest), "0 (Model.ReqLimit: c = Σ d_i, C11_depth_counter_is_sum)", "process-wide counter at rest after a parallel load")
+		}
+		return
+	}
 	for _, d := range res.Diffs {
 		if d.Class == "sg" {
 			sgSeen = true
@@ -400,7 +476,35 @@ func firstLines(s string, n int) string {
 	return strings.Join(l, " / ")
 }
 
-func loadStreams(c *vh.Ctx) {
+func flightLimitsOrDefault(limits []int) []int {
+	var out []int
+	seen := map[int]bool{}
+	for _, l := range limits {
+		if l >= 20 && l <= 4000 && !seen[l] {
+			seen[l] = true
+			out = append(out, l)
+		}
+	}
+	if len(out) == 0 {
+		out = []int{500}
+	}
+	return out
+}
+
+// the depth catalogue under real parallelism: the frames of all in-flight requests are held at the
+// same time (rendezvous at the bottom), together beyond every limit of the source
+func depthLoadStreams(c *vh.Ctx, limits []int) {
+	for _, l := range flightLimitsOrDefault(limits) {
+		for i, n := range []int{2, 3, 8, 32, 64} {
+			if !c.Thorough() && i%2 == 1 {
+				continue
+			}
+			runLoad(c, loadCase{Stream: "depth", Seed: c.Rand.U64() % 1000000, InFlight: n, Rounds: c.N(6, 40), Limit: l})
+		}
+	}
+}
+
+func loadStreams(c *vh.Ctx, limits []int) {
 	sizes := []int{2, 3, 8, 32, 64}
 	if c.Thorough() {
 		sizes = []int{2, 3, 4, 6, 8, 12, 16, 24, 32, 48, 64}
@@ -421,6 +525,7 @@ func loadStreams(c *vh.Ctx) {
 		n := []int{2, 3, 8, 16, 32, 64}[i%6]
 		runLoad(c, loadCase{Stream: "vals", Seed: c.Rand.U64() % 1000000, InFlight: n, Rounds: c.N(4, 20)})
 	}
+	depthLoadStreams(c, limits)
 	for _, n := range []int{8, 32} {
 		runLoad(c, loadCase{Stream: "sg", Seed: c.Rand.U64() % 1000000, InFlight: n, Rounds: c.N(20, 200)})
 	}
